@@ -239,4 +239,85 @@ theorem add_unit (e : Encoder) (ct k : Nat) (u : List Block) (preds : List Int) 
         exact h1e
 
 
+/-- a session: successive `AddN` calls (N = colour type) with a working writer -/
+def runAdds (ct : Nat) : Encoder → List (List Block) → Encoder × List Res
+  | e, [] => (e, [])
+  | e, u :: us =>
+    ((runAdds ct (add e ct false (some u)).1 us).1, (add e ct false (some u)).2 :: (runAdds ct (add e ct false (some u)).1 us).2)
+
+/-- all blocks of all units, as the file must hold them -/
+def expectAll (e : Encoder) (ct : Nat) (us : List (List Block)) : List (List Int) :=
+  us.flatMap (expectUnit e ct)
+
+theorem expectUnit_congr (e e' : Encoder) (h0 : e'.quants0 = e.quants0) (h1 : e'.quants1 = e.quants1) (ct : Nat)
+    (u : List Block) : expectUnit e' ct u = expectUnit e ct u := by
+  unfold expectUnit expectBlock Encoder.quants
+  rw [h0, h1]
+
+theorem flatMap_congr' {α β : Type} (l : List α) (f g : α → List β) (h : ∀ a ∈ l, f a = g a) :
+    l.flatMap f = l.flatMap g := by
+  induction l with
+  | nil => rfl
+  | cons a l ih =>
+    simp only [List.flatMap_cons]
+    rw [h a List.mem_cons_self, ih (fun b hb => h b (List.mem_cons_of_mem _ hb))]
+
+/-- the whole scan, generalised over the starting state -/
+theorem scan_gen (ct : Nat) (hct3 : ct = 1 ∨ ct = 3 ∨ ct = 6) (us : List (List Block)) :
+    ∀ (e : Encoder) (preds : List Int) (p : Nat), Inv e → Acc e p → e.hasReturnedError = false →
+      e.colorType = ct → e.numAddsRemaining = us.length → PredsRel e preds → preds.length = ncomp ct →
+      (∀ u ∈ us, u.length = ct ∧ ∀ b ∈ u, blockIsValid b = true) →
+      ∃ (ws : List (Array Nat)) (bytes : List Nat) (p' n' : Nat) (X : List Bool),
+        (runAdds ct e us).2 = ws.map Res.ok ∧
+        ws.flatMap Array.toList = stuff bytes ++ (if us = [] then [] else [255, 217]) ∧
+        bitsOf p e.bitsN ++ X ++ (if us = [] then [] else bitsOf 0x7F 7) = Spec.bytesBits bytes ++ bitsOf p' n' ∧
+        n' < 8 ∧
+        ∀ tail, Spec.decodeMCUs (planOf (whichComponents ct)) us.length preds (X ++ tail) =
+          some (expectAll e ct us, tail) := by
+  induction us with
+  | nil =>
+    intro e preds p hi ha _ _ _ _ _ _
+    exact ⟨[], [], p, e.bitsN, [], rfl, by simp [stuff], by simp [Spec.bytesBits], ha.1,
+      fun tail => by simp [Spec.decodeMCUs, expectAll]⟩
+  | cons u us ih =>
+    intro e preds p hi ha herr hct hk hpr hpl hus
+    have hu := hus u List.mem_cons_self
+    obtain ⟨w, bytes1, p1, X1, preds1, a1, a2, a3, a4, a5, a6, a7, a8, a9, a10, a11, a12, a13⟩ :=
+      add_unit e ct us.length u preds p hi ha herr hct hct3 hu.1 hu.2 (by simpa using hk) hpr hpl
+    cases us with
+    | nil =>
+      simp only [List.length_nil, ↓reduceIte] at a11 a12 a2
+      refine ⟨[w], bytes1, p1, (add e ct false (some u)).1.bitsN, X1, ?_, ?_, ?_, a8.1, ?_⟩
+      · simp only [runAdds, List.map_cons, List.map_nil, a1]
+      · simp [a11]
+      · simpa using a12
+      · intro tail
+        simp only [List.length_cons, List.length_nil, Nat.zero_add, Spec.decodeMCUs]
+        rw [a13]
+        simp [expectAll]
+    | cons u2 us2 =>
+      obtain ⟨ws, bytes2, p2, n2, X2, b1, b2, b3, b4, b5⟩ :=
+        ih (add e ct false (some u)).1 preds1 p1 a7 a8 a3 a4 a2 a9 (by rw [a10, hpl])
+          (fun u' hu' => hus u' (List.mem_cons_of_mem _ hu'))
+      have hl : ¬ (u2 :: us2).length = 0 := by simp
+      simp only [hl, ↓reduceIte, List.append_nil] at a11 a12
+      simp only [List.cons_ne_nil, ↓reduceIte] at b2 b3
+      refine ⟨w :: ws, bytes1 ++ bytes2, p2, n2, X1 ++ X2, ?_, ?_, ?_, b4, ?_⟩
+      · show (add e ct false (some u)).2 :: (runAdds ct (add e ct false (some u)).1 (u2 :: us2)).2 = _
+        rw [a1, b1]; rfl
+      · simp only [List.flatMap_cons, a11, b2, stuff_append, List.cons_ne_nil, ↓reduceIte, List.append_assoc]
+      · simp only [List.cons_ne_nil, ↓reduceIte, bytesBits_append, List.append_assoc] at b3 ⊢
+        rw [← List.append_assoc, a12, List.append_assoc, b3]
+      · intro tail
+        have hlen : (u :: u2 :: us2).length = (u2 :: us2).length + 1 := rfl
+        rw [hlen, Spec.decodeMCUs, List.append_assoc, a13]
+        simp only
+        rw [b5 tail]
+        simp only [expectAll, List.flatMap_cons, Option.some.injEq, Prod.mk.injEq, and_true]
+        congr 1
+        rw [expectUnit_congr e _ a5 a6 ct u2]
+        congr 1
+        exact flatMap_congr' _ _ _ (fun u' _ => expectUnit_congr e _ a5 a6 ct u')
+
+
 end WuffsVerif.Jpeg.Scan
